@@ -353,7 +353,7 @@ macro_rules! niop {
         alu!($name, NIOP, [rid(i.ra), rid(i.rb), rid(i.rc), Imm06::new($opk | ($w << 4))], niop, $can_panic, |i| {
             // rc is fixed: its low bits share a byte with the immediate in the RRRI06 encoding, and a
             // symbolic rc makes the (constant) operation selector symbolic for CBMC
-            i.rc = 0x12;
+            i.ra = 0x10; i.rb = 0x11; i.rc = 0x12; // all ids concrete (they share bytes with the immediate)
             if $opk == 3 { let e: u8 = kani::any(); i.regs[0x12] = (i.regs[0x12] & !niop_mask($w)) | (e & 7) as Word; }
             niop_spec($opk, $w, rb!(i), rc!(i), fl!(i))
         });
